@@ -1,9 +1,17 @@
 #!/bin/bash
-# usage: tools_try.sh <patch.diff> <prop> [<prop>...]   -- apply a seeded change to /repo, run checks, undo
+# usage: tools_try.sh <patch.diff> <prop> [<prop>...]
+# Runs checks against a seeded change.  Default: on a PRIVATE copy of /repo's HEAD via BEE2_REPO
+# (other agents read /repo concurrently).  TRY_INPLACE=1: apply to /repo itself, run, undo.
 P=$1; shift
-git -C /repo apply "$P" || { echo "patch does not apply"; exit 9; }
-for id in "$@"; do
-  echo "== $id on $P"; (cd /verif && timeout 3000 ./check $id 2>&1 | grep -v "^  " | head -8; echo "rc=${PIPESTATUS[0]}")
-done
-git -C /repo checkout -- .
-git -C /repo status --short | grep -v _build
+if [ -n "$TRY_INPLACE" ]; then
+  git -C /repo apply "$P" || { echo "patch does not apply"; exit 9; }
+  for id in "$@"; do echo "== $id on $P"; (cd /verif && timeout 3000 ./check $id 2>&1 | grep -v "^  " | head -8; echo "rc=${PIPESTATUS[0]}"); done
+  git -C /repo checkout -- .
+  git -C /repo status --short | grep -v _build
+else
+  D=/var/tmp/bee2v.try.$$
+  git -C /repo worktree add -q --detach $D HEAD || exit 9
+  git -C $D apply "$P" || { echo "patch does not apply"; git -C /repo worktree remove --force $D; exit 9; }
+  for id in "$@"; do echo "== $id on $P (private copy)"; (cd /verif && BEE2_REPO=$D timeout 3000 ./check $id 2>&1 | grep -v "^  " | head -8; echo "rc=${PIPESTATUS[0]}"); done
+  git -C /repo worktree remove --force $D
+fi
